@@ -80,7 +80,7 @@ def lik_item(seed, i):
     nw, W = [(1, 1), (2, 1), (5, 5), (12, 3), (40, 10), (100, 10), (6, 2), (200, 10)][i % 8]
     d = dict(rng=[seed, 152, i], nw=nw, W=W, K=int(rng.integers(1, 5)), T=int(rng.integers(1, 30)),
              scale=[1e-7, 1e-3, 1.0, 1e3, 1e7][i % 5], spread=float(rng.choice([0.1, 1.0, 50.0])), layout=["C", "F"][(i // 8) % 2],
-             theta="dense")
+             theta="dense", dtype=[None, None, None, "int64", "float32"][i % 5] if nw <= 12 else None)
     return d
 
 
@@ -191,8 +191,13 @@ def run_threads(spec, res):
     counts = [n for n in (1, 2, 3, 4, 5, 7, 8, 11, 16) if n <= numba.config.NUMBA_NUM_THREADS]
     seen = []
     heights = [1, 2, 5, 9, 17, 18, 37, 101, 1000, 4000, 4001]
-    for T in heights:
+    variants = [(T, "distinct") for T in heights] + [(T, "runs") for T in (64, 1000, 4001)]
+    for T, kind in variants:
         X = rng.normal(size=(T, nw)) * 3
+        if kind == "runs":
+            # long runs of identical consecutive windows (a sensor holding its value): every block boundary of a static schedule
+            # falls inside a run
+            X = np.repeat(X[:max(1, T // 37 + 1)], 37, axis=0)[:T]
         refo = gauss.gauss_table(X, list(mus), list(ths))
         bnd = gauss.table_bound(X, list(mus), list(ths))
         ref = None
